@@ -35,6 +35,9 @@ CACHE_QUERIES = [
     # a candidate-rooted query whose nested filter mentions no candidate: still one verdict per candidate
     "$.xs[?@.ys[?$.k == 1]]", "$.xs[?@.ys[?$.k == 1]].k", "$.xs[?@.ys[?_.flag]]", "$.xs[?count(@.ys[?1 == 1]) > 0]", "$.xs[?@.ys[?$.list[0] == 1] && $.k]", "$.xs[?@.ys[?true]]",
     "$.xs[?@.ys[?$.a[?@ > 1]]]", "$.xs[?!@.ys[?$.k == 1]]", "$..[?@.ys[?$.k == 1]]",
+    # cacheable sub-expressions that differ only in literals equal under Python's `==` (1 / true / 1.0, 0 / false)
+    "$.xs[?@.k > 0 && ($.flag == 1 || $.flag == true)]", "$.xs[?($.k == true || $.k == 1) && @.k]", "$.xs[?count($.none.*) == false || count($.none.*) == 0]",
+    "$.xs[?($.k == 1.0 || $.k == 1) && ($.flag == 0 || $.flag == false || @.k == 5)]", "$.xs[?_.v == true || _.v == 1 || @.zz]",
 ]
 COMPOUND_CTX = ["$.xs[?@.k == _.v] | $.xs[?@.k != _.v]", "$.xs[?@.k == $.k] & $.xs[*]", "$.a[?@ > $.k] | $.xs[?_.flag].k | $.list[?@ == _.v]"]
 DOCSEQ = [
@@ -42,6 +45,9 @@ DOCSEQ = [
     {"a": [3], "k": 2, "s": "b", "list": [5], "xs": [{"ys": [2], "k": 2}, {"ys": [], "k": 5}]},
     {"a": [], "k": 5, "list": [], "xs": [{"k": 5, "ys": [5]}, {"k": 1}]},
     {"xs": []},
+    {"flag": True, "k": True, "xs": [{"k": 1}, {"k": 0}, {"k": 2}]},
+    {"flag": 1, "k": 1, "xs": [{"k": 1}, {"k": 5}]},
+    {"flag": False, "k": 1.0, "xs": [{"k": 5}, {"k": 2}]},
 ]
 
 
